@@ -1,6 +1,6 @@
 (* C12 — proofs about the WSP session model (Model/C12Wsp.v) *)
 From Coq Require Import ZArith List Bool Lia.
-From V Require Import Bytes StrGo BytesLemmas C12RtspSession C12RtspProofs C12Wsp.
+From V Require Import Bytes StrGo BytesLemmas C12RtspSession C12TransportProofs C12RtspProofs C12Wsp.
 Import ListNotations.
 Open Scope Z_scope.
 
@@ -85,6 +85,22 @@ Proof.
   all: try (repeat split; auto; right; split; auto; left; split; auto; eexists; split; reflexivity).
   all: try (repeat split; auto; right; split; auto; right; repeat split; auto; discriminate).
   all: congruence.
+Qed.
+
+(* a SETUP is answered 2xx only when its Transport header is valid *)
+Lemma wrtsp_setup_valid : forall e s q s' c fs,
+  wrtsp_step true e s q = (s', c, fs) -> wq_meth q = WmSetup -> is_2xx c = true ->
+  transport_invalid (wq_transport q) = false.
+Proof.
+  intros e s q s' c fs Hr Hm H2. unfold wrtsp_step in Hr. rewrite Hm in Hr.
+  destruct (negb (wlegal_go true (w_status s) WmSetup)); [inversion Hr; subst; discriminate H2|].
+  destruct (wdo_setup s q) as [s1 c1] eqn:Hd. inversion Hr; subst; clear Hr.
+  unfold wdo_setup, wready_of in Hd.
+  repeat break_match; inv_pairs; try discriminate H2;
+  match goal with
+  | H : parse_transport (w_tr s) (wq_transport q) = (_, false) |- _ =>
+      rewrite <- (parse_transport_err_is_spec (w_tr s) (wq_transport q)), H; reflexivity
+  end.
 Qed.
 
 Lemma is_wteardown_true : forall m, is_wteardown m = true <-> m = WmTeardown.
@@ -386,6 +402,11 @@ Proof.
     destruct (code_class c =? 2) eqn:H2.
     + (* accepted *)
       assert (Hx : is_2xx c = true) by exact H2.
+      assert (Hval : wmeth_eqb (wq_meth q) WmSetup && transport_invalid (wq_transport q) = false).
+      { destruct (wmeth_eqb (wq_meth q) WmSetup) eqn:E; [|reflexivity]. cbn [andb].
+        apply (wrtsp_setup_valid _ _ _ _ _ _ Hr); [|exact Hx].
+        destruct (wq_meth q); try discriminate E; reflexivity. }
+      cbn [andb]. rewrite Hval.
       destruct (Hacc Hx) as [-> Hm]. clear Href Hill H455.
       destruct (wq_meth q) eqn:Hme; try (destruct Hm; fail); cbn [wmon_accept]; cbn [wo_reg wo_eof wobs_of].
       * (* OPTIONS *)
@@ -696,6 +717,7 @@ Proof.
     dif H.
     + dif H. inversion H; subst. apply WMI_app. assumption.
     + dif H; [discriminate|].
+      dif H; [discriminate|].
       destruct (code_class (rs_code rr) =? 2) eqn:H2.
       * apply Z.eqb_eq in H2. rewrite H2.
         destruct (wmon_accept m (wq_meth q)) as [m2|] eqn:Ha; [|discriminate].
